@@ -5,30 +5,75 @@ Scheme ival_mut := Induction for ival Sort Prop
   with ivals_mut := Induction for ivals Sort Prop.
 Combined Scheme ival_ivals_ind from ival_mut, ivals_mut.
 
-(* one run allocates exactly the identities c, c+1, ..., one per spec, and nothing else *)
-Lemma inst_ids :
-  (forall v c, snd (inst c v) = c + count v /\ ids (fst (inst c v)) = seq c (count v))
-  /\ (forall xs c, snd (inst_list c xs) = c + count_list xs /\ ids_list (fst (inst_list c xs)) = seq c (count_list xs)).
+(* the repaired instantiate does not care whether it is below a tuple *)
+Lemma inst_fixed_below :
+  (forall v b b' c, inst true b c v = inst true b' c v)
+  /\ (forall xs b b' c, inst_list true b c xs = inst_list true b' c xs).
 Proof.
   apply ival_ivals_ind.
-  - intros z c. simpl. split; [lia | reflexivity].
-  - intros cls args IH c. simpl. specialize (IH c). destruct (inst_list c args) as [ys c1]. simpl in *.
+  - reflexivity.
+  - intros d cls args IH b b' c. simpl. rewrite (IH b b' c). reflexivity.
+  - intros xs IH b b' c. simpl. rewrite (IH b b' c). reflexivity.
+  - intros xs IH b b' c. reflexivity.
+  - reflexivity.
+  - intros x IHx r IHr b b' c. simpl. rewrite (IHx b b' c). destruct (inst true b' c x) as [y c1].
+    rewrite (IHr b b' c1). reflexivity.
+Qed.
+
+(* inside the guard the current tree behaves as the repaired one *)
+Lemma inst_guard_same :
+  (forall v b c, okv b v = true -> inst false b c v = inst true b c v)
+  /\ (forall xs b c, okv_list b xs = true -> inst_list false b c xs = inst_list true b c xs).
+Proof.
+  apply ival_ivals_ind.
+  - reflexivity.
+  - intros d cls args IH b c H. simpl in *. apply andb_true_iff in H. destruct H as [H1 H2].
+    apply negb_true_iff in H1. rewrite H1. simpl. rewrite (IH b c H2). reflexivity.
+  - intros xs IH b c H. simpl in *. rewrite (IH b c H). reflexivity.
+  - intros xs IH b c H. simpl in *. rewrite (IH true c H). reflexivity.
+  - reflexivity.
+  - intros x IHx r IHr b c H. simpl in *. apply andb_true_iff in H. destruct H as [H1 H2].
+    rewrite (IHx b c H1). destruct (inst true b c x) as [y c1]. rewrite (IHr b c1 H2). reflexivity.
+Qed.
+
+(* one run of the repaired instantiate allocates exactly the identities c, c+1, ..., one per spec *)
+Lemma inst_ids :
+  (forall v b c, snd (inst true b c v) = c + count v /\ ids (fst (inst true b c v)) = seq c (count v))
+  /\ (forall xs b c, snd (inst_list true b c xs) = c + count_list xs /\ ids_list (fst (inst_list true b c xs)) = seq c (count_list xs)).
+Proof.
+  apply ival_ivals_ind.
+  - intros z b c. simpl. split; [lia | reflexivity].
+  - intros d cls args IH b c. simpl. specialize (IH b c). destruct (inst_list true b c args) as [ys c1]. simpl in *.
     destruct IH as [-> ->]. split; [lia|].
     pose proof (seq_S (count_list args) c) as E. simpl in E. symmetry. exact E.
-  - intros xs IH c. simpl. specialize (IH c). destruct (inst_list c xs) as [ys c1]. simpl in *. exact IH.
-  - intros c. simpl. split; [lia | reflexivity].
-  - intros x IHx r IHr c. simpl. specialize (IHx c). destruct (inst c x) as [y c1]. simpl in *.
-    destruct IHx as [-> Hy]. specialize (IHr (c + count x)). destruct (inst_list (c + count x) r) as [ys c2]. simpl in *.
+  - intros xs IH b c. simpl. specialize (IH b c). destruct (inst_list true b c xs) as [ys c1]. simpl in *. exact IH.
+  - intros xs IH b c. simpl. specialize (IH true c). destruct (inst_list true true c xs) as [ys c1]. simpl in *. exact IH.
+  - intros b c. simpl. split; [lia | reflexivity].
+  - intros x IHx r IHr b c. simpl. specialize (IHx b c). destruct (inst true b c x) as [y c1]. simpl in *.
+    destruct IHx as [-> Hy]. specialize (IHr b (c + count x)). destruct (inst_list true b (c + count x) r) as [ys c2]. simpl in *.
     destruct IHr as [-> Hys]. split; [lia|]. rewrite Hy, Hys, seq_app. reflexivity.
 Qed.
 
-Lemma inst_twice_ids c cfg :
-  inst_twice c cfg = (seq c (count_list cfg), seq (c + count_list cfg) (count_list cfg)).
+Lemma inst_twice_fixed_ids c cfg :
+  inst_twice true c cfg = (seq c (count_list cfg), seq (c + count_list cfg) (count_list cfg)).
 Proof.
   unfold inst_twice. destruct inst_ids as [_ H].
-  pose proof (H cfg c) as H1. destruct (inst_list c cfg) as [r1 c1]. simpl in H1. destruct H1 as [-> E1].
-  pose proof (H cfg (c + count_list cfg)) as H2. destruct (inst_list (c + count_list cfg) cfg) as [r2 c2]. simpl in H2.
+  pose proof (H cfg false c) as H1. destruct (inst_list true false c cfg) as [r1 c1]. simpl in H1. destruct H1 as [-> E1].
+  pose proof (H cfg false (c + count_list cfg)) as H2. destruct (inst_list true false (c + count_list cfg) cfg) as [r2 c2]. simpl in H2.
   destruct H2 as [_ E2]. rewrite E1, E2. reflexivity.
+Qed.
+
+Lemma inst_twice_guard_same c cfg : inst_guard cfg = true -> inst_twice false c cfg = inst_twice true c cfg.
+Proof.
+  intro G. unfold inst_twice. destruct inst_guard_same as [_ H]. rewrite (H cfg false c G).
+  destruct (inst_list true false c cfg) as [r1 c1]. rewrite (H cfg false c1 G). reflexivity.
+Qed.
+
+Lemma inst_twice_ids fx c cfg :
+  (fx = false -> inst_guard cfg = true) ->
+  inst_twice fx c cfg = (seq c (count_list cfg), seq (c + count_list cfg) (count_list cfg)).
+Proof.
+  intro G. destruct fx; [apply inst_twice_fixed_ids|]. rewrite (inst_twice_guard_same c cfg (G eq_refl)). apply inst_twice_fixed_ids.
 Qed.
 
 Lemma nodupb_NoDup l : nodupb l = true <-> NoDup l.
@@ -40,14 +85,16 @@ Proof.
 Qed.
 
 (* the property: for EVERY configuration tree and every starting state of the process, the two runs
-   build count_list cfg objects each, all 2*count pairwise distinct, none of which existed before *)
+   build count_list cfg objects each, all 2*count pairwise distinct, none of which existed before —
+   on the current tree under the guard (no default-derived spec below a tuple), on the repaired tree always *)
 Theorem instantiate_twice_fresh :
-  forall (c : nat) (cfg : ivals),
-    let '(ids1, ids2) := inst_twice c cfg in
+  forall (fx : bool) (c : nat) (cfg : ivals),
+    (fx = false -> inst_guard cfg = true) ->
+    let '(ids1, ids2) := inst_twice fx c cfg in
     NoDup (ids1 ++ ids2) /\ (forall i, In i (ids1 ++ ids2) -> c <= i)
     /\ length ids1 = count_list cfg /\ length ids2 = count_list cfg.
 Proof.
-  intros c cfg. rewrite inst_twice_ids. rewrite <- seq_app. repeat split.
+  intros fx c cfg G. rewrite (inst_twice_ids fx c cfg G). rewrite <- seq_app. repeat split.
   - apply seq_NoDup.
   - intros i Hi. apply in_seq in Hi. lia.
   - apply seq_length.
@@ -55,10 +102,11 @@ Proof.
 Qed.
 
 Theorem instantiate_twice_spec :
-  forall (c : nat) (cfg : ivals),
-    fresh_twice_ok c cfg (fst (inst_twice c cfg)) (snd (inst_twice c cfg)) = true.
+  forall (fx : bool) (c : nat) (cfg : ivals),
+    (fx = false -> inst_guard cfg = true) ->
+    fresh_twice_ok c cfg (fst (inst_twice fx c cfg)) (snd (inst_twice fx c cfg)) = true.
 Proof.
-  intros c cfg. pose proof (instantiate_twice_fresh c cfg) as H. destruct (inst_twice c cfg) as [i1 i2]. simpl.
+  intros fx c cfg G. pose proof (instantiate_twice_fresh fx c cfg G) as H. destruct (inst_twice fx c cfg) as [i1 i2]. simpl.
   destruct H as [Hn [Hge [H1 H2]]]. unfold fresh_twice_ok.
   repeat (apply andb_true_iff; split).
   - apply nodupb_NoDup. exact Hn.
@@ -69,14 +117,26 @@ Qed.
 
 (* every spec position gets two DIFFERENT objects: the k-th object of run 1 is not the k-th of run 2 *)
 Theorem instantiate_twice_pairwise_distinct :
-  forall (c : nat) (cfg : ivals) (k : nat),
+  forall (fx : bool) (c : nat) (cfg : ivals) (k : nat),
+    (fx = false -> inst_guard cfg = true) ->
     k < count_list cfg ->
-    nth k (fst (inst_twice c cfg)) 0 <> nth k (snd (inst_twice c cfg)) 0.
+    nth k (fst (inst_twice fx c cfg)) 0 <> nth k (snd (inst_twice fx c cfg)) 0.
 Proof.
-  intros c cfg k Hk. rewrite inst_twice_ids. simpl. rewrite !seq_nth by exact Hk. lia.
+  intros fx c cfg k G Hk. rewrite (inst_twice_ids fx c cfg G). simpl. rewrite !seq_nth by exact Hk. lia.
 Qed.
 
 (* a caching instantiate violates it as soon as there is one spec *)
 Theorem cached_instantiate_refuted :
   exists c cfg, fresh_twice_ok c cfg (fst (inst_twice_cached c cfg)) (snd (inst_twice_cached c cfg)) = false.
-Proof. exists 0, (ICons (ISpec [] INil) INil). vm_compute. reflexivity. Qed.
+Proof. exists 0, (ICons (ISpec false [] INil) INil). vm_compute. reflexivity. Qed.
+
+(* the current tree outside the guard: (Pair(), 1) for Tuple[Base, int] where Pair.left has a
+   lazy_instance signature default — both calls hand out the one live default object (identity 0) *)
+Theorem default_below_tuple_shared_refuted :
+  exists cfg, inst_guard cfg = false
+              /\ fresh_twice_ok 1 cfg (fst (inst_twice false 1 cfg)) (snd (inst_twice false 1 cfg)) = false
+              /\ fresh_twice_ok 1 cfg (fst (inst_twice true 1 cfg)) (snd (inst_twice true 1 cfg)) = true.
+Proof.
+  exists (ICons (ITup (ICons (ISpec false [80]%N (ICons (ISpec true [76]%N (ICons (IInt 5) INil)) INil)) (ICons (IInt 1) INil))) INil).
+  vm_compute. repeat split; reflexivity.
+Qed.
